@@ -39,6 +39,20 @@ BROKEN_BASE = [
 ]
 
 
+# list / subscript / implicit-this spellings (docs/language.md): (property or "handler", text, accepted?)
+LISTS = [
+    ("flag", "a.items[0].isEmpty()", True), ("text", "a.items[0] + \"x\"", True), ("text", "a.items[a.ival]", True), ("text", "a.items[a.uval]", True),
+    ("items", "[a.items[0], \"b\"]", True), ("items", "[a.text, a.textB]", True), ("flag", "a.items.isEmpty()", True), ("flag", "a.items[0] == \"x\"", True),
+    ("text", "this.text", True), ("ival", "this.ival + ival", True), ("text", "text + \"x\"", True),
+    ("handler", "a.items = [\"a\"]", True), ("handler", "a.items = []", True), ("handler", "let l = a.items; l[0] = \"y\"; a.items = l", True),
+    ("handler", "let l = a.items; l[a.ival] = a.text", True),
+    ("text", "a.items[\"x\"]", False), ("text", "a.items[0][0]", False), ("items", "[1, 2]", False), ("items", "[[]]", False), ("items", "[a.text, 1]", False),
+    ("ival", "a.items.length", False), ("flag", "[a, b] == [a]", False), ("text", "a.items[a.dval]", False), ("text", "a.items[a.flag]", False),
+    ("handler", "a.items[0] = \"x\"", False), ("handler", "a.items[a.ival] = a.text", False), ("handler", "a.text[0] = \"x\"", False),
+    ("handler", "let l = a.items; l[0] = 1", False), ("handler", "let l = a.items; l[\"k\"] = \"y\"", False), ("handler", "let l = a.items; l = 1", False),
+]
+
+
 def const_undefined(e):
     """a maximal literal-only sub-expression whose value is undefined is rightly rejected (C03): excluded here"""
     def is_const(x):
@@ -143,6 +157,11 @@ def run(chk):
         src = P.HEAD + "  TSource { id: t0\n    ival: " + text + "\n  }\n}\n"
         reqs.append({"id": "u%d" % n, "src": src, "type_name": "Doc", "modes": ["generate"]})
         meta["u%d" % n] = ("unsupported", "binding", {"text": text}, src)
+    for n, (prop, text, ok) in enumerate(LISTS):
+        body = ("onPlain: { %s }" % text) if prop == "handler" else "%s: %s" % (prop, text)
+        src = P.HEAD + "  TSource { id: t0\n    " + body + "\n  }\n}\n"
+        reqs.append({"id": "l%d" % n, "src": src, "type_name": "Doc", "modes": ["generate"]})
+        meta["l%d" % n] = ("brokenbase-good" if ok else "unsupported", "binding", {"text": body, "why": "list / subscript spelling outside the documented subset"}, src)
     for n, (text, ok) in enumerate(BROKEN_BASE):
         src = P.HEAD + "  TBroken { id: br }\n  TSource { id: t0\n    " + text + "\n  }\n}\n"
         reqs.append({"id": "b%d" % n, "src": src, "type_name": "Doc", "modes": ["generate"]})
